@@ -16,11 +16,15 @@ from cascade.low.core import DatasetId  # noqa: E402
 
 @st.composite
 def sim_cases(draw, max_tasks: int = 10, max_hosts: int = 4, max_workers: int = 3, bias: str = "none"):
-    spec = draw(job_specs(max_tasks=max_tasks, ext="any"))
-    nh = draw(st.integers(1, max_hosts))
+    fanout = bias == "replication" and draw(st.booleans())
+    if fanout:
+        spec = draw(fanout_specs(max_tasks=max_tasks))
+    else:
+        spec = draw(job_specs(max_tasks=max_tasks, ext="any"))
+    nh = draw(st.integers(2 if fanout else 1, max_hosts))
     cluster = []
     for _ in range(nh):
-        k = draw(st.integers(1, max_workers))
+        k = draw(st.integers(2 if fanout else 1, max(2, max_workers)))
         cluster.append({"workers": k, "gpu": [draw(st.integers(0, 3)) == 0 for _ in range(k)]})
     if any(t["gpu"] for t in spec["tasks"]) and not any(any(h["gpu"]) for h in cluster):
         hi = draw(st.integers(0, nh - 1))
@@ -34,7 +38,37 @@ def sim_cases(draw, max_tasks: int = 10, max_hosts: int = 4, max_workers: int = 
     decisions = draw(st.lists(st.integers(0, 1 << 16), max_size=60))
     tail = draw(st.integers(0, 1 << 30))
     inject = draw(st.one_of(st.none(), st.none(), st.none(), st.integers(1, 6)))
-    return {"job": spec, "cluster": cluster, "decisions": decisions, "tail_seed": tail, "inject": inject}
+    return {"job": spec, "cluster": cluster, "decisions": decisions, "tail_seed": tail, "inject": inject,
+            "slow_data": bias == "replication" and draw(st.booleans())}
+
+
+@st.composite
+def fanout_specs(draw, max_tasks: int = 10):
+    """One or two producers whose outputs are consumed by many tasks (consumers end up on several hosts, in the same assign phase),
+    optionally followed by a second level; some consumed datasets are requested outputs."""
+    from .genjob import task_name
+
+    nprod = draw(st.integers(1, 2))
+    ncons = draw(st.integers(2, max(2, max_tasks - nprod - 1)))
+    tasks = []
+    for i in range(nprod):
+        outs = draw(st.sampled_from([["__default__"], ["0", "1"]]))
+        tasks.append({"name": task_name(i), "outs": outs, "gpu": False, "args": [{"s": i}], "kwargs": {}, "placeholders": False})
+    for j in range(ncons):
+        src = draw(st.integers(0, nprod - 1))
+        args = [{"e": [src, draw(st.sampled_from(tasks[src]["outs"]))]}]
+        if draw(st.integers(0, 3)) == 0:
+            src2 = draw(st.integers(0, len(tasks) - 1))
+            args.append({"e": [src2, draw(st.sampled_from(tasks[src2]["outs"]))]})
+        tasks.append({"name": task_name(nprod + j), "outs": ["__default__"], "gpu": False, "args": args, "kwargs": {}, "placeholders": False})
+    ext = []
+    for i, t in enumerate(tasks):
+        for o in t["outs"]:
+            if draw(st.integers(0, 2)) == 0:
+                ext.append([i, o])
+    if not ext:
+        ext = [[len(tasks) - 1, "__default__"]]
+    return {"tasks": tasks, "ext": ext}
 
 
 def run_sim(case: dict):
@@ -43,7 +77,7 @@ def run_sim(case: dict):
         ch = Chooser(prefix=case["log"], tail_seed=None)
     else:
         ch = Chooser(prefix=case["decisions"], tail_seed=case["tail_seed"])
-    res = simulate(job, case["cluster"], ch, case.get("inject"))
+    res = simulate(job, case["cluster"], ch, case.get("inject"), slow_data=bool(case.get("slow_data")))
     res["job"] = job
     res["chooser"] = ch
     return res
